@@ -60,6 +60,7 @@ pub mod storage {
     use vstd::prelude::*;
     use super::*;
     verus!{
+//@ item rust/automerge/src/storage.rs | const MAGIC_BYTES
     pub mod parse {
         use vstd::prelude::*;
         verus!{
